@@ -144,6 +144,16 @@ class Ctx:
         self.log(f"proof gate: {self.discharged}/{self.obligations} theorems, axioms={axioms or 'none'}")
         return True
 
+    def vm_crosscheck(self, mlines, model, n=40):
+        """Extraction is in the trusted base: re-evaluate a seed-drawn sample of the runner's answers inside Coq (vm_compute)."""
+        checked, bad, err = coqbuild.vm_sample_check(mlines, model, self.rng.fork("vm-sample"), n)
+        self.coverage["vm_crosschecked"] = checked
+        if err:
+            self.violation({"kind": "vm-crosscheck", "obligation": "vm_compute re-evaluation of runner results failed to run", "log": err}, no_input=True)
+        elif bad:
+            self.violation({"kind": "vm-crosscheck", "obligation": "the extracted runner disagrees with vm_compute on the same requests",
+                            "cases": [l for l in mlines if l.split(" ", 1)[0] in bad][:5]}, no_input=True)
+
     def finish(self):
         wall = time.time() - self.t0
         cov = self.coverage
